@@ -31,7 +31,7 @@ def run(ctx):
     import os
     f = lambda n: os.path.join(g.dir, n)
     # 3. real code on every case
-    ctx.vdrive(["c18", f("setcases.ndjson"), f("compcases.ndjson"), f("hists.ndjson"),
+    ctx.vdrive("c18", ["run", f("setcases.ndjson"), f("compcases.ndjson"), f("hists.ndjson"),
                 ctx.path("setobs.ndjson"), ctx.path("compobs.ndjson"), ctx.path("traces.ndjson")])
     setobs = ctx.read_ndjson(ctx.path("setobs.ndjson"))
     compobs = ctx.read_ndjson(ctx.path("compobs.ndjson"))
